@@ -57,6 +57,12 @@ type Historian interface {
 	Hist() uint64
 }
 
+// Finalizer is implemented by runs that want to know when the explorer applies the operation under test
+// (as opposed to replaying a stored prefix).
+type Finalizer interface {
+	BeginFinal()
+}
+
 // Scenario creates runs and names operations.
 type Scenario interface {
 	Name() string
@@ -210,6 +216,27 @@ func Replay(sc Scenario, p []Op, checkStates bool) (Run, *Failure, int) {
 	return r, nil, -1
 }
 
+// ReplayFull re-executes a history the way the explorer did: state oracles after every operation, and the last
+// operation marked as the operation under test.
+func ReplayFull(sc Scenario, p []Op) (Run, *Failure, int) {
+	r := sc.New()
+	for i, o := range p {
+		if fz, ok := r.(Finalizer); ok && i == len(p)-1 {
+			fz.BeginFinal()
+		}
+		x := r.Apply(o)
+		if x.Fail != nil {
+			return r, x.Fail, i
+		}
+		if !x.Prune {
+			if f := r.Check(); f != nil {
+				return r, f, i
+			}
+		}
+	}
+	return r, nil, -1
+}
+
 // Explore runs the breadth-first search.
 func Explore(sc Scenario, cfg Config) *Stats {
 	start := time.Now()
@@ -333,6 +360,9 @@ func Explore(sc Scenario, cfg Config) *Stats {
 									break
 								}
 							}
+						}
+						if fz, ok := cur.(Finalizer); ok {
+							fz.BeginFinal()
 						}
 						x := cur.Apply(op)
 						r := res{op: op, fail: x.Fail, prune: x.Prune, outcome: cur.Outcome()}
